@@ -24,6 +24,7 @@ type Conn struct {
 	out      []byte
 	writeEnd []int // cumulative output length after each Write call
 	closed   bool
+	writeErr error
 
 	rdl, wdl     time.Time
 	rtimer       *time.Timer
@@ -242,6 +243,9 @@ func (c *Conn) Write(p []byte) (int, error) {
 	if c.closed {
 		return 0, io.ErrClosedPipe
 	}
+	if c.writeErr != nil {
+		return 0, c.writeErr
+	}
 	if !c.wdl.IsZero() && !time.Now().Before(c.wdl) {
 		return 0, timeoutErr{}
 	}
@@ -305,6 +309,14 @@ func (c *Conn) SetWriteDeadline(t time.Time) error {
 	c.wdl = t
 	c.cond.Broadcast()
 	return nil
+}
+
+// FailWrites makes every later Write fail with err (a connection whose
+// sending direction broke: peer reset, half-closed socket).
+func (c *Conn) FailWrites(err error) {
+	c.mu.Lock()
+	c.writeErr = err
+	c.mu.Unlock()
 }
 
 // DeadlineSet reports whether a read or write deadline is currently set.
